@@ -335,6 +335,26 @@ def _r2(run, classes):
     fvar = [k for k, v in dm.items() if isinstance(v, ast.Call) and dotted(v.func) == 'IsoMapper2D']
     _wiring(run, K, 'map2d iso-mapping', dm.get(fvar[0]) if fvar else None, 'IsoMapper2D', ['self.psi_normalised', prof], path, fn.lineno)
     _wiring(run, K, 'map2d blend', ret[-1].value if ret else None, 'ScalarBlend2D', [outside, fvar[0] if fvar else '?', 'self.inside_lcfs'], path, fn.lineno)
+    # array profiles are 2 x N (row 0: normalised flux, row 1: values): the rows handed to the interpolator are rows 0 and 1 of the array as
+    # given -- a re-layout decided from the shape (transpose when shape[1] == 2) misreads a genuine 2 x 2 profile
+    for mname_ in ('map2d', 'map_vector2d'):
+        fnm = eq.methods.get(mname_)
+        if fnm is None:
+            continue
+        run.subject('C12-R2')
+        relayout = [st for st in ast.walk(fnm) if isinstance(st, ast.Assign) and len(st.targets) == 1 and isinstance(st.targets[0], ast.Name)
+                    and ((isinstance(st.value, ast.Call) and isinstance(st.value.func, ast.Attribute) and st.value.func.attr in ('transpose', 'swapaxes')
+                          and norm(st.value.func.value) == st.targets[0].id)
+                         or (isinstance(st.value, ast.Attribute) and st.value.attr == 'T' and norm(st.value.value) == st.targets[0].id)
+                         or (isinstance(st.value, ast.Call) and dotted(st.value.func) in ('np.transpose', 'np.swapaxes') and st.value.args
+                             and norm(st.value.args[0]) == st.targets[0].id))]
+        shaped = [st for st in relayout if any('.shape' in norm(e_) or '.ndim' in norm(e_) for e_, p_ in (guards_of(fnm, st) or []) if isinstance(e_, ast.AST))]
+        if shaped:
+            run.fail('C12-R2', K + mname_ + '|profile-layout', path, shaped[0].lineno,
+                     "%s re-lays out an array profile depending on its shape (%s): a 2 x 2 profile [[psi0, psi1], [f0, f1]] is transposed and read as "
+                     "[[psi0, f0], [psi1, f1]], so the mapped function is not the given profile of normalised flux" % (mname_, norm(shaped[0])))
+        else:
+            run.ok('C12-R2', mname_ + ' array profile layout', 'rows 0 / 1 of the array as given', sample=False)
     fn = eq.methods['map3d']
     ret = [r for r in ast.walk(fn) if isinstance(r, ast.Return)]
     a = [x.arg for x in fn.args.args[1:3]]
@@ -392,6 +412,9 @@ def _r2(run, classes):
 
 
 MUTANTS = [
+    dict(name='array-profile-layout-guessed-from-the-shape', file=FILE,
+         find="            profile = np.array(profile, np.float64)\n            profile = Interpolator1DArray(profile[0, :], profile[1, :], 'cubic', 'none', 0)\n\n        # map around equilibrium\n",
+         replace="            profile = np.array(profile, np.float64)\n            if profile.ndim == 2 and profile.shape[1] == 2:\n                profile = profile.transpose()\n            profile = Interpolator1DArray(profile[0, :], profile[1, :], 'cubic', 'none', 0)\n\n        # map around equilibrium\n", expect='C12-R2'),
     dict(name='normal-sign-flipped', file=FILE, find="return new_vector3d(-b.z, 0, b.x).normalise()", replace="return new_vector3d(b.z, 0, -b.x).normalise()", expect='C12-R1'),
     dict(name='flux-coord-normal-flipped', file=FILE, find="            normal = new_vector3d(-f.z, 0, f.x)", replace="            normal = new_vector3d(f.z, 0, -f.x)", expect='C12-R1'),
     dict(name='clamp-min-dropped', file=FILE, find="'cubic', 'none', 0, 0), min=0)", replace="'cubic', 'none', 0, 0))", expect='C12-R2'),
